@@ -154,9 +154,12 @@ CLAIMS = {
          "frame target, bytecode address and delegation / load-failure status of every address the result is StateChangeDuringStaticCall, "
          "NotActivated (CREATE2 before Petersburg), FatalExternalError (the TARGET cannot be loaded), NotActivated (the TARGET carries a "
          "delegation designator, whatever code the frame runs), else exactly one fall-through to revm's create with its result unchanged; "
-         "the policy is the configured one from Prague on and disabled before, for every fork.",
-    note=TRUST + "revm's contract::create, every other opcode and the gas table are stock revm: outside the claim; that build_evm swaps the "
-         "table iff the flag is set and the spec is >= Prague goes through revm's builder chain and is not encoded (the for_spec normalisation is).",
+         "the policy is the configured one from Prague on and disabled before, for every fork. The real build_evm (revm's builder chain as tagging ghosts): "
+         "the instruction table is the guarded one, built for the block's spec, iff the guard is requested and the spec is Prague or later -- otherwise revm's "
+         "mainnet table untouched; the standard precompile set is the spec's; every custom precompile is registered once at its address via to_alloy.",
+    note=TRUST + "revm's contract::create, every other opcode and the gas table are stock revm: outside the claim; in the build_evm kernel revm's "
+         "Context/Evm builders, Precompiles::new, gravity_instructions (decided separately by h2) and PrecompilesMap::apply_precompile are tagging ghosts; that both "
+         "execution paths hand build_evm the normalised flag is read off the two call sites, not decided.",
     design="5/C12"),
  "C13": dict(
     text="Two engines on the real code. mir2c -> CBMC: WithReserveHandler::has_reserve_violation with the journal scan and planner as "
@@ -183,7 +186,8 @@ CLAIMS = {
          "become recorded fatal faults. And GrevmExecutor::execute_incarnation's lifecycle: every attempt, successful or failed, finalizes "
          "the revm journal exactly once before publishing / discarding, so a discarded or retried attempt leaves nothing in the reused EVM; the real "
          "to_alloy adapter closure: a database fault or static refusal recorded by the facade is the call's result whatever the implementation returned, "
-         "otherwise the implementation's result is forwarded (Ok / halted output with the reservoir / EVM error), implementation called once.",
+         "otherwise the implementation's result is forwarded (Ok / halted output with the reservoir / EVM error), implementation called once; "
+         "the EVM construction helper used by both execution paths (real build_evm) registers every custom precompile exactly once, at its own address, through that adapter.",
     note=TRUST + "The Alloy adapter closure is decided with alloy's PrecompileInput reduced to the field it reads and from_alloy / the implementation / "
          "PrecompileOutput::halt as ghosts. NOT decided: gas charged once, call-frame revert semantics of "
          "facade writes (revm journal), conflict detection of facade accesses beyond 'they go through the journal' (then C01's read kernels apply).",
